@@ -17,6 +17,8 @@ import (
 	"time"
 
 	"pgregory.net/rapid"
+
+	"verifharness/internal/iso"
 )
 
 // ---------------------------------------------------------------------------------------------
@@ -250,6 +252,9 @@ func (c *Collector) flush(dir string) (starved []string) {
 
 // Main is the TestMain body of every check package.
 func Main(m *testing.M) {
+	if iso.IsWorker() {
+		iso.Serve()
+	}
 	flag.Parse()
 	code := m.Run()
 	dir := os.Getenv("VERIF_EV_OUT")
